@@ -1967,3 +1967,90 @@ def c12_max(rep, W, rule="C12.MAX"):
     ordb = W.prog.body("<%s::server::SnapshotUrgency as core::cmp::Ord>::cmp" % WD.CORE)
     okd = ordb is not None and [t["callee"].get("def") for _, t in ordb.calls()].count("core::intrinsics::discriminant_value") == 2
     rep.ob(rule, ("SnapshotUrgency", "derived-Ord"), okd, "Ord::cmp compares discriminants (derive(Ord))", nontrivial=False)
+
+
+# =========================================================================== C05
+from tcss import results as R     # noqa: E402
+
+# panic-site table: (function suffix, callee suffix) -> reason; anything else is a violation
+PANIC_TABLE = [
+    ("inmemory::InMemoryStorage as taskchampion_sync_server_core::storage::Storage>::txn", "Result::<T, E>::expect",
+     "Mutex::lock().expect(\"poisoned lock\"): in-memory backend only (not the persistent backend the property is about)"),
+    ("Txn as taskchampion_sync_server_core::storage::StorageTxn>::get_client::{closure#0}", "LocalResult::<T>::unwrap",
+     "Utc.timestamp_opt(ts, 0).unwrap(): ts was written by this server from a valid DateTime (seconds), always in range"),
+    ("taskchampion_sync_server::ServerArgs::new", "Option::<T>::unwrap",
+     "clap guarantees presence (required / default_value); runs at start-up before serving"),
+    ("taskchampion_sync_server::command", "Option::<T>::unwrap", "inside clap's arg! macro; runs at start-up before serving"),
+]
+
+
+def c05_err(rep, W, rule="C05.ERR"):
+    n = 0
+    npan = 0
+    for b in sorted(W.prog.bodies.values(), key=lambda x: x.key):
+        if b.j.get("impl_trait", "").startswith(R.DERIVED_TRAITS):
+            continue
+        res, pan = R.analyse_body(W, b)
+        cnt = {}
+        for r in res:
+            n += 1
+            k = r.callee.split("::")[-1]
+            cnt[k] = cnt.get(k, 0) + 1
+            key = (short_fn(b), "%s#%d" % (k, cnt[k] - 1))
+            if r.status == "panics":
+                continue     # judged by the panic table below
+            rep.ob(rule, key, r.status in ("propagated", "handled"),
+                   "Result of %s: %s (%s)" % (r.callee, r.status, r.why), where(b, r.bb))
+        pc = {}
+        for bb, d in pan:
+            npan += 1
+            k = d.split("::")[-1]
+            pc[k] = pc.get(k, 0) + 1
+            row = [reason for fs, cs, reason in PANIC_TABLE if b.deff.endswith(fs) and d.endswith(cs)]
+            rep.ob("C05.PANIC", (short_fn(b), "%s#%d" % (k, pc[k] - 1)), bool(row),
+                   "%s in %s: %s" % (d.split("::", 2)[-1], b.deff, row[0] if row else "NOT in the panic-site table (a failing step would crash the worker instead of producing an error response)"),
+                   where(b, bb), nontrivial=False)
+    rep.floor(rule, "Result-valued call sites", n, 60)
+    return n
+
+
+def c05_map(rep, W, rule="C05.MAP"):
+    from rules import http as H
+    r = H.fn_statuses(W, H.SERVER_ERROR_TO_ACTIX, by_variant=True)
+    okm = r is not None and r[1].get("Other") == {500} and r[1].get("NoSuchClient") == {404} and set(r[1]) == {"Other", "NoSuchClient"}
+    rep.ob(rule, ("server_error_to_actix", "variant-table"), okm,
+           "server_error_to_actix maps %s; required NoSuchClient -> 404, Other (storage failure) -> 500" % (r[1] if r else None),
+           where(W.body(H.SERVER_ERROR_TO_ACTIX)))
+    f = H.fn_statuses(W, H.FAILURE_TO_ISE)
+    rep.ob(rule, ("failure_to_ise", "is-500"), f == {500}, "failure_to_ise maps to %s; required 500" % f, where(W.body(H.FAILURE_TO_ISE)))
+    # every handler outcome under Err(Other) is a 5xx (C14 rows) and every propagated storage error in the creation block is a 5xx
+    for module in WD.HANDLER_MODULES:
+        body, g, opbb, opterm, outs = H.handler_outcomes(W, module)
+        a_err = ("VARIANT", ("err", opterm))
+        a_res = ("VARIANT", opterm)
+        n = 0
+        for o in outs:
+            if o.phase != "post" or o.val.get(a_res) != frozenset(["err"]):
+                continue
+            if o.val.get(a_err) == frozenset(["NoSuchClient"]) and module != "add_version":
+                continue
+            st = o.status
+            if o.val.get(a_err) is None:
+                st = H._status_for_variant(W, o, "Other")
+            n += 1
+            rep.ob(rule, (short_fn(body), "storage-error-is-5xx", "L%s" % o.kind), st is not None and all(isinstance(x, int) and x >= 500 for x in st) and o.kind != "ok",
+                   "a storage failure (ServerError::Other / creation-block failure) is answered with %s; an error (5xx) is required, never a success" % st,
+                   where(body, line=exit_line(body, o.site)))
+        rep.floor(rule, short_fn(body) + " storage-error outcomes", n, 1, where(body))
+
+
+def c05_drop(rep, W, rule="C05.DROP"):
+    bad = W.bodies_calling(lambda c: c.get("def", "") in ("core::mem::forget", "alloc::boxed::Box::<T>::leak", "core::mem::ManuallyDrop::<T>::new",
+                                                          "alloc::boxed::Box::<T>::into_raw", "core::mem::MaybeUninit::<T>::new"))
+    rep.ob(rule, ("workspace", "no-forget-or-leak"), not bad, "calls that keep a value (and a transaction's lock) alive past its scope: %s" % ([(b.deff, d) for b, _, d in [(b, bb, t["callee"]["def"]) for b, bb, t in bad]] or "none"))
+    drops = [i for i in W.prog.impls if i.get("trait") == "core::ops::drop::Drop" and i["unit"].startswith(WD.SQLITE)]
+    rep.ob(rule, ("sqlite", "no-Drop-impl"), not drops, "Drop impls in the sqlite crate (a commit-on-drop would turn a failed request into a partial effect): %s" % ([d["self_ty"] for d in drops] or "none"))
+    txn_adt = W.prog.adt("Txn")
+    conf = [f for f in (txn_adt["variants"][0]["fields"] if txn_adt else []) if f["name"] == "con"]
+    rep.ob(rule, ("sqlite::Txn", "owns-connection"), bool(conf) and conf[0]["ty"] == "rusqlite::Connection",
+           "Txn.con : %s (owned: dropping an uncommitted transaction closes the connection, which rolls back and releases the lock)" % (conf[0]["ty"] if conf else "?"))
